@@ -368,7 +368,7 @@ func dependsOnAny(u Universe, v vertex, docs []string) bool {
 // idScenarios: documents in which a schema with an id re-scopes the fragment-only references below it.
 func idScenarios() []*built {
 	var out []*built
-	for _, id := range []string{"http://h/ids/n.json", "ids/n.json", "n.json"} {
+	for _, id := range []string{"http://h/ids/n.json", "ids/n.json", "n.json", "#label", "ext.json#label"} {
 		for _, where := range []string{"ext", "root"} {
 			inner := obj("id", id, "title", "scoped",
 				"definitions", obj("X", obj("title", "inner-X")),
